@@ -20,31 +20,14 @@ pub const LAYOUT_NAMES: [&str; 10] = [
 ];
 pub const FORM_NAMES: [&str; 3] = ["bare", "any", "anyref"];
 
-// `static` items: these also exercise const construction of every AnyLayout variant.
-static ANY_US: AnyLayout = AnyLayout::Us104Key(Us104Key);
-static ANY_UK: AnyLayout = AnyLayout::Uk105Key(Uk105Key);
-static ANY_DE: AnyLayout = AnyLayout::De105Key(De105Key);
-static ANY_AZ: AnyLayout = AnyLayout::Azerty(Azerty);
-static ANY_NO: AnyLayout = AnyLayout::No105Key(No105Key);
-static ANY_FI: AnyLayout = AnyLayout::FiSe105Key(FiSe105Key);
-static ANY_JIS: AnyLayout = AnyLayout::Jis109Key(Jis109Key);
-static ANY_COL: AnyLayout = AnyLayout::Colemak(Colemak);
-static ANY_DV: AnyLayout = AnyLayout::Dvorak104Key(Dvorak104Key);
-static ANY_DVP: AnyLayout = AnyLayout::DVP104Key(DVP104Key);
-
-pub fn any_static(li: usize) -> &'static AnyLayout {
-    match li {
-        0 => &ANY_US,
-        1 => &ANY_UK,
-        2 => &ANY_DE,
-        3 => &ANY_AZ,
-        4 => &ANY_NO,
-        5 => &ANY_FI,
-        6 => &ANY_JIS,
-        7 => &ANY_COL,
-        8 => &ANY_DV,
-        9 => &ANY_DVP,
-        _ => panic!("layout index"),
+/// `&AnyLayout` form without a `'static` (a `static AnyLayout` would make the whole harness depend on
+/// `AnyLayout: Sync`, which is C20's business, not every monitor's): owns the wrapper and calls the
+/// by-reference impl `<&AnyLayout as KeyboardLayout>::map_keycode`.
+pub struct ByRef(pub AnyLayout);
+impl KeyboardLayout for ByRef {
+    fn map_keycode(&self, k: KeyCode, m: &Modifiers, h: HandleControl) -> DecodedKey {
+        let r: &AnyLayout = &self.0;
+        <&AnyLayout as KeyboardLayout>::map_keycode(&r, k, m, h)
     }
 }
 
@@ -85,7 +68,7 @@ pub fn layout_obj(li: usize, form: usize) -> Box<dyn KeyboardLayout> {
     match form {
         0 => bare_dyn(li),
         1 => Box::new(any_value(li)),
-        2 => Box::new(any_static(li)),
+        2 => Box::new(ByRef(any_value(li))),
         _ => panic!("form"),
     }
 }
@@ -230,4 +213,14 @@ pub fn rec_layout(instance: u32) -> (RecLayout, Rc<RefCell<RecLog>>) {
         },
         log,
     )
+}
+
+/// A layout that cannot fail: used where the layout's content is irrelevant to the property (C04),
+/// so that a defect inside a real layout is not reported under the wrong property.
+#[derive(Debug)]
+pub struct NullLayout;
+impl KeyboardLayout for NullLayout {
+    fn map_keycode(&self, k: KeyCode, _m: &Modifiers, _h: HandleControl) -> DecodedKey {
+        DecodedKey::RawKey(k)
+    }
 }
